@@ -14,7 +14,7 @@ TInit ==
   /\ t0 \in Starts /\ l = t0
   /\ prog = [p \in Procs |-> <<>>] /\ cur = [p \in Procs |-> NoCall]
   /\ lock = "free" /\ outClosed = FALSE /\ inClosed = FALSE /\ wire = <<>>
-  /\ rets = [p \in Procs |-> <<>>] /\ peer = <<>> /\ avail = 0
+  /\ rets = [p \in Procs |-> <<>>] /\ peer = <<>> /\ avail = 0 /\ failArmed = FALSE
   /\ sv = [phase |-> "init", reason |-> "none", owner |-> "none", pending |-> 0]
 
 ProgOf(r, p) == IF \E i \in 1..Len(r.progs) : r.progs[i].p = p
@@ -25,6 +25,7 @@ TrReset ==
   /\ prog' = [p \in Procs |-> ProgOf(Trace[l], p)]
   /\ peer' = Trace[l].script \o <<"eof">>
   /\ sv' = [sv EXCEPT !.phase = "idle"]
+  /\ failArmed' = Trace[l].failclose
   /\ UNCHANGED <<cur, lock, outClosed, inClosed, wire, rets, avail>>
 
 TrCall == IsEv("call") /\ Begin(Trace[l].p) /\ cur'[Trace[l].p].k = Trace[l].k
@@ -39,6 +40,7 @@ TrWrite ==
          w == Trace[l].what IN
      \/ w = "elem" /\ TxWrite(p)
      \/ w = "close" /\ CloseWrite(p)
+     \/ w = "closefail" /\ CloseWriteFail(p)
      \/ w = "err" /\ ErrWrite(p)
 TrPeer == IsEv("peer") /\ PeerFeed /\ peer[avail'] = Trace[l].item
 TrHandler == IsEv("handler") /\ ServeItem(sv.owner) /\ Head(peer) = Trace[l].item
